@@ -866,15 +866,7 @@ class Engine(ExprMixin, CallMixin):
         for n in self.not_none_names(test, truth):
             v = st.env.get(n)
             if isinstance(v, VOpt):
-                # the payload gets a name of its own (a fresh constant defined equal to it): keeps later terms small when
-                # the Optional was a merge of several lookups
-                def named(leaf):
-                    if z3.is_const(leaf) or z3.is_int_value(leaf) or z3.is_string_value(leaf):
-                        return leaf
-                    c = z3.Const(uid(n + ".some"), leaf.sort())
-                    st.assume(c == leaf)
-                    return c
-                st.env[n] = tmap(named, v.val)
+                st.env[n] = v.val
                 st.narrowed = st.narrowed | {n}
 
     def st_With(self, s, st):
@@ -1371,6 +1363,15 @@ class Engine(ExprMixin, CallMixin):
             goal = self.spec_eval(cmd[4:], st)
             self.emit(f"ghost.cut[{label}]", st, goal, node, kind="ghost")
             st.pc[:] = [to_z3(goal)]
+        elif cmd.startswith("assert_last "):
+            # assert P proved from the last n hypotheses only (a smaller context for the solver; fewer hypotheses = sound)
+            n, rest = cmd[12:].split(" ", 1)
+            label = g.get("label", g["at"][:24])
+            goal = self.spec_eval(rest, st)
+            s2 = st.copy()
+            s2.pc = st.pc[-int(n):]
+            self.emit(f"ghost.assert[{label}]", s2, goal, node, kind="ghost")
+            st.assume(to_z3(goal))
         elif cmd.startswith("keep "):
             # proof cut without a new obligation: from here on this path knows only its last n hypotheses (typically the
             # facts just established by the preceding ghost asserts).  Dropping hypotheses is always sound.
@@ -1545,7 +1546,15 @@ class Engine(ExprMixin, CallMixin):
             post.old = entry
             for cmd in getattr(c, "ghost_exit", []):  # ghost commands run at every normal exit (e.g. naming a callee's ghost results)
                 self.ghost_cmd(cmd, post, fdef, {"at": "exit", "label": "exit"})
+            elsewhere = getattr(c, "ensures_in_variant", {})
             for k, text in enumerate(c.ensures):
+                if k in elsewhere:
+                    # this clause is proved by a second contract on the same function (its own, leaner invariants):
+                    # the variant must exist, state the same clause under the same requires, and is verified with this one
+                    vc = self.contracts.get(f"{qual}@{elsewhere[k]}")
+                    if vc is None or text not in vc.ensures or list(vc.requires) != list(c.requires):
+                        raise ContractError(f"{cname}: ensures #{k} is delegated to variant {elsewhere[k]!r}, which does not state it under the same requires")
+                    continue
                 label = getattr(c, "ensures_labels", {}).get(k, str(k))
                 self.emit(f"ensures.{label}", post, self.spec_eval(text, post), fdef, kind="post")
             # frame
